@@ -130,9 +130,13 @@ def run(ctx):
         clock[0] += 50
         return clock[0]
 
-    for lang, style, code in configs:
-        pre = [{"op": "rules_dir", "dir": COPY}, {"op": "set_pref", "name": "CheckRuleFiles", "value": "All"}, {"op": "set_pref", "name": "Language", "value": lang},
-               {"op": "set_pref", "name": "SpeechStyle", "value": style}, {"op": "set_pref", "name": "BrailleCode", "value": code}]
+    for ci, (lang, style, code) in enumerate(configs):
+        # every second configuration gets its language the way a host gives it (Language=Auto, then LanguageAuto): re-pointing the rules
+        # directory must bring back the files of THAT language
+        lang_prefs = [{"op": "set_pref", "name": "Language", "value": lang}] if ci % 2 == 0 else \
+            [{"op": "set_pref", "name": "Language", "value": "Auto"}, {"op": "set_pref", "name": "LanguageAuto", "value": lang}]
+        pre = [{"op": "rules_dir", "dir": COPY}, {"op": "set_pref", "name": "CheckRuleFiles", "value": "All"}] + lang_prefs + \
+              [{"op": "set_pref", "name": "SpeechStyle", "value": style}, {"op": "set_pref", "name": "BrailleCode", "value": code}]
         body = []
         for e in EXPRS:
             body += [{"op": "set_mathml", "xml": e}] + calls
